@@ -8,7 +8,7 @@ set -u
 ID=$1; V=$2; shift 2; EXTRA="$@"
 # round 2: SEED_ROUND=2 reads /tmp/wt2-<Cxx>/SEEDED/<a|b> and stores it as seeded/<Cxx>-<c|d>
 # round 3: /tmp/wt3-<Cxx>, stored as <Cxx>-<e|f>
-if [ "${SEED_ROUND:-1}" = 2 ]; then WT=/tmp/wt2-$ID; DV=$(echo $V | tr ab cd); elif [ "${SEED_ROUND:-1}" = 3 ]; then WT=/tmp/wt3-$ID; DV=$(echo $V | tr ab ef); elif [ "${SEED_ROUND:-1}" = 4 ]; then WT=/tmp/wt4-$ID; DV=$(echo $V | tr ab gh); else WT=/tmp/wt-$ID; DV=$V; fi
+if [ "${SEED_ROUND:-1}" = 2 ]; then WT=/tmp/wt2-$ID; DV=$(echo $V | tr ab cd); elif [ "${SEED_ROUND:-1}" = 3 ]; then WT=/tmp/wt3-$ID; DV=$(echo $V | tr ab ef); elif [ "${SEED_ROUND:-1}" = 4 ]; then WT=/tmp/wt4-$ID; DV=$(echo $V | tr ab gh); elif [ "${SEED_ROUND:-1}" = 5 ]; then WT=/tmp/wt5-$ID; DV=$(echo $V | tr ab gh); else WT=/tmp/wt-$ID; DV=$V; fi
 SRC=$WT/SEEDED/$V; DST=/verif/seeded/$ID-$DV
 mkdir -p $DST
 if [ -d $SRC ]; then cp $SRC/patch.diff $DST/patch.diff; cp $SRC/notes.md $DST/notes.md 2>/dev/null; DEMO=$(ls $SRC | grep -iE '^demo\.(rs|py|sh)$' | head -1); cp $SRC/$DEMO $DST/$DEMO; else DEMO=$(ls $DST | grep -i '^demo\.' | head -1); fi
@@ -39,13 +39,25 @@ echo "demo clean rc=$CLEAN (want 0), patched rc=$PATCHED (want !=0), suite with 
 printf 'CLEAN=%s\nPATCHED=%s\nSUITE_PASS=%s\nSUITE_FAIL=%s\n' $CLEAN $PATCHED $SUITE_PASS $SUITE_FAIL > $DST/confirm.env
 fi
 [ "${SEED_SKIP_CHECKS:-0}" = 1 ] && exit 0
-# 3. our checks
+# 3. our checks. SEED_ALT=1: run them from a copy of /verif against a second worktree of /repo (/tmp/alt), so that
+#    /repo itself stays untouched (needed while a `vp run` soak, which uses /repo, is in progress)
 cd /verif
-git -C /repo diff --quiet || { echo "/repo dirty"; exit 3; }
-git -C /repo apply $DST/patch.diff || { echo "patch does not apply to /repo"; exit 3; }
+if [ "${SEED_ALT:-0}" = 1 ]; then
+  REPO=/tmp/alt/repo; VDIR=/tmp/alt/verif
+  [ -d $REPO ] || git -C /repo worktree add --detach $REPO HEAD >/dev/null 2>&1
+  git -C $REPO checkout -q --detach $(git -C /repo rev-parse HEAD) 2>/dev/null
+  mkdir -p $VDIR && rsync -a --delete --exclude target --exclude work --exclude replays --exclude .git --exclude evidence /verif/ $VDIR/
+  mkdir -p $VDIR/evidence
+  sed -i "s#/repo/sudachi\"#$REPO/sudachi\"#" $VDIR/harness/Cargo.toml
+  sed -i "s#cd /repo #cd $REPO #; s#/repo/python/py_src#$REPO/python/py_src#" $VDIR/check
+else
+  REPO=/repo; VDIR=/verif
+fi
+git -C $REPO diff --quiet || { echo "$REPO dirty"; exit 3; }
+git -C $REPO apply $DST/patch.diff || { echo "patch does not apply to $REPO"; exit 3; }
 RESF=$(mktemp); : > $RESF
 for c in $ID $EXTRA; do
-  out=$(./check $c ${SEED_TIER:-quick} 2>&1); rc=$?
+  out=$(cd $VDIR && ./check $c ${SEED_TIER:-quick} 2>&1); rc=$?
   first=$(echo "$out" | grep -aE "^FAIL|HANG|INCONCLUSIVE" | head -1 | python3 -c "import sys;print(sys.stdin.buffer.read().decode('utf-8','replace')[:300].replace('\\n',' ').strip())")
   echo "check $c rc=$rc $first"
   python3 - "$c" "$rc" "$first" >> $RESF <<'PY2'
@@ -54,7 +66,7 @@ c,rc,first=sys.argv[1:4]
 print(json.dumps({"check":c,"exit":int(rc),"first_failure":first.encode("utf-8","replace").decode("utf-8","replace")}))
 PY2
 done
-git -C /repo checkout -- .
+git -C $REPO checkout -- .
 python3 - "$ID" "$DV" "$CLEAN" "$PATCHED" "$SUITE_PASS" "$SUITE_FAIL" "$RESF" <<'PY'
 import json,sys
 id,v,clean,patched,sp,sf,res=[a.encode("utf-8","replace").decode("utf-8","replace") for a in sys.argv[1:8]]
